@@ -706,7 +706,59 @@ impl Run {
                 let res = self.rl_mut().commit(id);
                 self.wrote(res, &[Rec::Commit(id)], &format!("commit({id:?})"))
             }
-            OpSpec::Flush { wait } => {
+            OpSpec::Flush { nocb: true, .. } => {
+                // fire and forget: nothing to wait for, nothing acknowledged
+                self.classes.hit("flush_without_callback");
+                trace::mark(Mark::Note("flush(None)"));
+                if let Err(e) = self.rl_mut().flush(None) {
+                    return Err(Fail::new("flush-call-err", format!("flush(None) returned Err: {e}")));
+                }
+                Ok(Done::Skipped)
+            }
+            OpSpec::UpdateState { what, pos } => {
+                let mut st = self.model.st().clone();
+                let live: Vec<LogId> = self.model.cur.log.values().map(|v| v.0).collect();
+                match what % 5 {
+                    0 => {
+                        let cur = st.vote.unwrap_or((0, 0));
+                        st.vote = Some((cur.0.saturating_add(1), (*pos % 4) as u64));
+                    }
+                    1 => {
+                        let c: Vec<LogId> = live.iter().copied().filter(|id| Some(*id) >= st.committed).collect();
+                        if c.is_empty() {
+                            return Ok(Done::Skipped);
+                        }
+                        st.committed = Some(c[pick(*pos, c.len())]);
+                    }
+                    2 => st.user_data = Some(format!("us{}", self.op_no)),
+                    3 => {
+                        if live.len() < 2 {
+                            return Ok(Done::Skipped);
+                        }
+                        st.last = Some(live[pick(*pos, live.len() - 1)]);
+                    }
+                    _ => match st.last {
+                        Some((t, i)) if i < u64::MAX - 100 => st.last = Some((t, i + 1)),
+                        _ => return Ok(Done::Skipped),
+                    },
+                }
+                self.classes.hit("update_state");
+                let mut b = vec![];
+                refcodec::encode_state_body(&mut b, &st);
+                // the crate's state value is built through its public decoder
+                let mut state = self.rl().log_state().clone();
+                state.clone_from(&raft_log::codeq::Decode::decode(&b[..]).map_err(|e: std::io::Error| Fail::new("harness-resolve", format!("reference-encoded state does not decode: {e}")))?);
+                self.model.update_state(st.clone());
+                if let Some(l) = st.last {
+                    if Some(l) > self.max_id_seen {
+                        self.max_id_seen = Some(l);
+                    }
+                }
+                let rec = self.model.records.last().unwrap().clone();
+                let res = self.rl_mut().update_state(state);
+                self.wrote(res, &[rec], &format!("update_state({st:?})"))
+            }
+            OpSpec::Flush { wait, .. } => {
                 let id = self.flush_call(*wait)?;
                 if *wait {
                     self.wait_ack(id)?;
